@@ -392,7 +392,7 @@ class Daemon(object):
             shutil.rmtree(self.dir, ignore_errors=True)
 
 
-def run_batch(build, conf_text, data, leaks=True, env=None, timeout=30.0, hooks=False, args=("-n",), pause_at=None, pause_s=0.0):
+def run_batch(build, conf_text, data, leaks=True, env=None, timeout=30.0, hooks=False, args=("-n",), pause_at=None, pause_s=0.0, on_pause=None, ready=None):
     """Feed raw bytes, close stdin, return (stdout lines, Result).  No sync lines are added.
     pause_at / pause_s: stop writing at that byte offset for that many seconds (stdin stays open) so that real timers can run."""
     d = Daemon(build, conf_text, leaks=leaks, env=env, hooks=hooks, watchdog=timeout, args=args)
@@ -412,6 +412,19 @@ def run_batch(build, conf_text, data, leaks=True, env=None, timeout=30.0, hooks=
                 break
             if not paused and pos >= pause_at:
                 paused = True
+                if on_pause:
+                    # the daemon installs its signal handlers after the modules are up: wait until it has answered something
+                    t_rdy = time.time() + 10.0
+                    while ready and not ready(b"".join(out_chunks)) and time.time() < t_rdy and not died:
+                        r, _, _ = select.select([d.ofd], [], [], 0.2)
+                        if r:
+                            c = os.read(d.ofd, 65536)
+                            if not c:
+                                died = True
+                            out_chunks.append(c)
+                    if died:
+                        break
+                    on_pause(d)
                 t_end = time.time() + pause_s
                 while time.time() < t_end and not died:
                     r, _, _ = select.select([d.ofd], [], [], max(0.0, min(0.2, t_end - time.time())))
